@@ -1,12 +1,13 @@
 // unit float_to_prim_once: float/src/convert.rs `Context::convert_to_binary_once` (C06: a finite float of any base is
 // converted to base 2 with ONE rounding to the context precision p under the context mode R and a truthful flag).
-// The conversion itself (`convert_base`, mode Zero, p + 2 digits) is seen through an ASSUMED contract (lib/fp_stubs.rs,
-// lib/fp_spec.rs fp_cb_post: exact, or the exact value truncated at the last of >= p + 2 digits); the unit proves that
-// the sticky bit placed below the truncated significand makes the single `repr_round` (SIG: unit float_to_prim_round)
-// return the rounding of EVERY value in the open interval the truncation leaves (lib/fp_lemmas.rs lemma_fp_sticky_core,
-// over integers, all six modes).
-// KNOWN FINDING: precondition fp_cb_region (B a power of two or |exponent| <= 38) excludes the ln / exp path of
-// convert_base, where the assumed contract is false (see lib/fp_spec.rs).
+// No assumption about `convert_base`: the value sig * B^exp = num / den is divided out exactly with >= p + 2 quotient bits,
+// a sticky bit below them records a non-zero remainder, and the unit proves that the single `repr_round` (SIG: unit
+// float_to_prim_round) of the sticky-extended number is the rounding of the exact value: no p-bit boundary and no
+// midpoint lies strictly within one unit of an odd number two or more bits below the rounding position
+// (lib/fp_lemmas.rs lemma_fp_sticky_core, over integers, all six modes).  Zero gives Exact(0).
+// ASSUMED: the far-range shortcut (|log2 value| beyond 4096 according to the f32 estimate `log2_bounds`) is seen through
+// the enclosure the estimate is supposed to give (lib/fp_spec.rs fp_est_lo / fp_est_hi, __f32_guard0/1 below: lowering rule
+// D10); its result is the stand-in +-2^+-4096 (fp_far), stated as such in the contract.  dashu-int operations: lib/fp_stubs.rs.
 #![allow(unused_imports, unused_variables, dead_code, non_snake_case, unused_mut, unused_parens, unused_braces)]
 use vstd::prelude::*;
 verus! {
@@ -14,15 +15,10 @@ global size_of usize == 8;   // DESIGN.md section 6: usize is 64-bit in all proo
 //@@ INCLUDE lib/round_prelude.rs
 //@@ INCLUDE lib/round_int_stubs.rs
 //@@ INCLUDE lib/round_int_addsub_stubs.rs
-//@@ INCLUDE lib/round_modes.rs
 pub trait Round: Copy {
     /// ghost: which of the six mode definitions the implementing type stands for
     spec fn md() -> Mode;
 }
-// the mode type used by name in convert_to_binary_once (its `round_low_part` is verified against this definition in
-// unit float_round_zero)
-impl Round for mode::Zero { open spec fn md() -> Mode { Mode::Zero } }
-use mode::Zero;
 //@@ INCLUDE lib/round_float_repr.rs
 //@@ INCLUDE lib/conv_float.rs
 //@@ INCLUDE lib/conv_enc.rs
@@ -31,15 +27,22 @@ use mode::Zero;
 //@@ INCLUDE lib/fp_stubs.rs
 //@@ INCLUDE lib/fp_lemmas.rs
 use core::marker::PhantomData;
-impl<T, E> Approximation<T, E> {
-//@@ FN float/mul/approx_value.rs
-}
+// the two float tests of convert_to_binary_once (rule D10).  TRUSTED statements about the f32 expressions
+// `log2_lb > FAR as f32 || log2_ub < -FAR as f32` and `log2_lb > 0.` (FAR = 4096 is exactly representable in f32)
+#[verifier::external_body]
+pub fn __f32_guard0(log2_lb: f32, FAR: isize, log2_ub: f32) -> (r: bool)
+    ensures r == (fp_f32_gt(log2_lb, FAR as int) || fp_f32_lt(log2_ub, -(FAR as int)))
+{ unimplemented!() }
+#[verifier::external_body]
+pub fn __f32_guard1(log2_lb: f32) -> (r: bool)
+    ensures r == fp_f32_gt(log2_lb, 0)
+{ unimplemented!() }
 impl<const B: Word> Repr<B> {
 //@@ FN float/repr/is_infinite.rs
 //@@ FN float/convert/repr_is_finite.rs
+//@@ FN float/to_prim/repr_zero.rs
 }
 impl<R: Round> Context<R> {
-//@@ FN float/convert/context_new.rs
 //@@ SIG float/to_prim/repr_round.rs
 //@@ FN float/to_prim/convert_to_binary_once.rs drop_asserts=0
 }
